@@ -277,9 +277,58 @@ IDENT_EDITS = [
         tag='T3', cid='o_original', note='proc_macro2::Ident (T7 stub) - Display of an Ident cannot be executed by Verus'),
 ]
 
+EPILOGUE = r'''
+// ---------- C01 / C02: the known-finding classes do not touch conventionally named identifiers
+pub open spec fn is_field_char(c: char) -> bool { is_ascii_lower(c) || ('0' <= c && c <= '9') || c == '_' }
+/// snake_case field name: only a-z, 0-9, '_' and at least one letter
+pub open spec fn conventional_field(s: Seq<char>) -> bool {
+    (forall|i: int| 0 <= i < s.len() ==> is_field_char(#[trigger] s[i])) && (exists|i: int| 0 <= i < s.len() && is_ascii_lower(#[trigger] s[i]))
+}
+/// UpperCamelCase variant name: A-Z first, only ASCII letters and digits, at least one lowercase letter
+pub open spec fn conventional_variant(s: Seq<char>) -> bool {
+    s.len() > 0 && is_ascii_upper(s[0])
+    && (forall|i: int| 0 <= i < s.len() ==> is_ascii_lower(#[trigger] s[i]) || is_ascii_upper(s[i]) || ('0' <= s[i] && s[i] <= '9'))
+    && (exists|i: int| 0 <= i < s.len() && is_ascii_lower(#[trigger] s[i]))
+}
+proof fn lemma_not_allup(s: Seq<char>)
+    requires exists|i: int| 0 <= i < s.len() && is_ascii_lower(#[trigger] s[i])
+    ensures !allup(s)
+{
+    let i = choose|i: int| 0 <= i < s.len() && is_ascii_lower(#[trigger] s[i]);
+    assert(ascii_up(s)[i] == up(s[i]));
+    assert(up(s[i]) != s[i]);
+}
+/// C01: for a conventionally named field the contract of get_ident / rename_all_to_case has no carve-out
+proof fn lemma_conventional_field_outside_findings(rule: Seq<char>, s: Seq<char>)
+    requires conventional_field(s)
+    ensures !kf_field(rule, s)
+{
+    lemma_not_allup(s);
+    assert(is_ascii_str(s)) by { assert forall|i: int| 0 <= i < s.len() implies ((#[trigger] s[i]) as u32) < 128 by { assert(is_field_char(s[i])); } }
+    axiom_unicode_ascii_case(s);
+    assert(ascii_low(s) =~= s) by { assert forall|i: int| 0 <= i < s.len() implies ascii_low(s)[i] == s[i] by { assert(is_field_char(s[i])); } }
+    assert(!has_upper(s)) by {
+        if has_upper(s) { let i = choose|i: int| 0 <= i < s.len() && unicode_is_upper(#[trigger] s[i]); assert(is_field_char(s[i])); axiom_unicode_ascii_upper(s[i]); }
+    }
+}
+/// C02: for an UpperCamelCase variant the contract has no carve-out
+proof fn lemma_conventional_variant_outside_findings(rule: Seq<char>, s: Seq<char>)
+    requires conventional_variant(s)
+    ensures !kf_variant(rule, s)
+{
+    lemma_not_allup(s);
+    assert(is_ascii_str(s)) by { assert forall|i: int| 0 <= i < s.len() implies ((#[trigger] s[i]) as u32) < 128 by { assert(is_ascii_lower(s[i]) || is_ascii_upper(s[i]) || ('0' <= s[i] && s[i] <= '9')); } }
+    axiom_unicode_ascii_case(s);
+    assert(!has_us(s)) by {
+        if has_us(s) { let i = choose|i: int| 0 <= i < s.len() && (#[trigger] s[i]) == '_'; assert(is_ascii_lower(s[i]) || is_ascii_upper(s[i]) || ('0' <= s[i] && s[i] <= '9')); }
+    }
+}
+'''
+
 UNIT = Unit(
     name='rename',
-    props=['C16', 'C07'],
+    epilogue=EPILOGUE,
+    props=['C16', 'C01', 'C02', 'C07'],
     spec_files=['chars.rs', 'std_extra.rs', 'serde_case.rs'],
     pre_verus=PRE_VERUS,
     prelude=PRELUDE,
@@ -298,7 +347,8 @@ UNIT = Unit(
     },
     functions=['string::String::to_camel_case', 'string::String::to_pascal_case', 'string::String::to_snake_case',
                'string::String::to_screaming_snake_case', 'string::String::to_kebab_case', 'string::String::to_screaming_kebab_case',
-               'rename_all_to_case', 'get_ident', 'lemma_dash_up_commute', 'lemma_sd_pascal_no_us', 'lemma_rule_names'],
+               'rename_all_to_case', 'get_ident', 'lemma_dash_up_commute', 'lemma_sd_pascal_no_us', 'lemma_rule_names',
+               'lemma_conventional_field_outside_findings', 'lemma_conventional_variant_outside_findings'],
     trusted=[
         'std string contracts in spec/chars.rs (to_ascii_uppercase/lowercase on str and char, char::is_uppercase, str::to_lowercase/'
         'to_uppercase as uninterpreted Unicode maps, CharIndices::next with the byte offset abstracted to "zero iff first char")',
